@@ -421,7 +421,7 @@ class Interp:
         if type(base).__name__ in ("SimpleNamespace", "NoneResult") and hasattr(base, attr):
             return getattr(base, attr)
         if isinstance(base, SuperProxy):
-            mro = base.obj.cls.mro() if isinstance(base.obj, Obj) else []
+            mro = base.obj.cls.mro() if isinstance(base.obj, Obj) else base.obj.mro() if isinstance(base.obj, Class) else []
             if base.after in mro:
                 for k in mro[mro.index(base.after) + 1 :]:
                     if attr in k.methods:
@@ -1054,7 +1054,12 @@ class Interp:
         d = {}
         for k, v in zip(e.keys, e.values):
             if k is None:
-                d.update(self.eval(v))
+                inner = self.eval(v)
+                if isinstance(inner, _DictView):
+                    inner = dict(inner.materialise())
+                if not isinstance(inner, dict):
+                    raise Undecided(f"** of a non-dict value {inner!r}"[:120])
+                d.update(inner)
             else:
                 d[_hashable(self.eval(k))] = self.eval(v)
         return d
@@ -1209,6 +1214,8 @@ class Interp:
                 return base.attrs[base.attrs["_fields"][idx]]
             except IndexError:
                 raise RaiseSignal("IndexError", e)
+        if isinstance(base, Obj) and isinstance(base.attrs.get("_fields"), tuple) and isinstance(idx, slice) and base.cls.lookup("__getitem__") is None:
+            return tuple(base.attrs[n] for n in base.attrs["_fields"][idx])  # a slice of a named tuple is a plain tuple
         if isinstance(base, Obj):
             gi = base.cls.lookup("__getitem__")
             if gi is not None:
